@@ -7,9 +7,9 @@ from . import c05
 PROPERTY = 'C09'
 BUDGET = {'quick': {'seconds': 1200, 'xreplay_every': 100}, 'thorough': {'seconds': 6000, 'xreplay_every': 2000}}
 NONTRIVIAL = {'quick': ['pubrel-written', 'pubrel-retransmitted', 'publish-retransmitted', 'exchange-completed', 'reconnect-in-publish-stage',
-                        'reconnect-in-pubrel-stage', 'pubrel-resumed', 'stray-pubrec', 'duplicate-pubrec', 'early-publish']}
+                        'reconnect-in-pubrel-stage', 'pubrel-resumed', 'stray-pubrec', 'duplicate-pubrec', 'early-publish', 'session-discarded', 'reconnect-lost-before-connack']}
 
-KINDS = ('PUBREC', 'PUBCOMP', 'advance', 'publish2', 'publish1', 'reconnect')
+KINDS = ('PUBREC', 'PUBCOMP', 'advance', 'publish2', 'publish1', 'reconnect', 'reconnect-clean', 'reconnect-lost')
 
 
 def monitor(flow):
@@ -21,13 +21,14 @@ def monitor(flow):
             x = p['msgId']
             # a PUBREC bearing x was delivered in this step or earlier, after a PUBLISH bearing x was written
             ok = False
+            discard = max([s3 for s3 in range(st + 1) if flow.meta.get(s3, {}).get('kind') == 'connect' and as_int(flow.meta[s3].get('clean')) == 1] or [-1])
             for (s2, c2, f) in flow.rx_log:
-                if f['kind'] == 'PUBREC' and s2 <= st:
+                if f['kind'] == 'PUBREC' and discard < s2 <= st:
                     if any(p3['type'] == 'PUBLISH' and s3 < s2 and p3.get('msgId') is not None and eng.valid(p3['msgId'] == x) for (s3, c3, p3) in pk):
                         if f['msgId'] == x:
                             ok = True
                             break
-            eng.check(ok, 'pubrel-without-pubrec', 'PUBREL written in step %d (%s) for an identifier whose PUBREC was never received' % (st, w.steps[st][0]))
+            eng.check(ok, 'pubrel-without-pubrec', 'PUBREL written in step %d (%s) for an identifier whose PUBREC was never received in the current session' % (st, w.steps[st][0]))
             eng.count('pubrel-written')
     seen_rel = []       # (identifier, index in pk) of first PUBREL per open exchange
     ended = []
@@ -55,6 +56,14 @@ def monitor(flow):
                             over = True
                     eng.check(over, 'publish-after-pubrel', 'PUBLISH with the identifier written again in step %d (%s) after its PUBREL (step %d)' % (
                         st, w.steps[st][0], s0))
+    for r in flow.reqs:
+        if r.kind == 'publish' and r.tr is not None and r.tr.fired and r.accepted() and eng.valid(r.qos == 2):
+            s0, ok0, v0 = r.tr.fired[0]
+            m0 = flow.meta.get(s0, {})
+            by_pubcomp = m0.get('kind') == 'rx' and m0.get('pkt') == 'PUBCOMP'
+            by_discard = (m0.get('kind') == 'connect' and as_int(m0.get('clean')) == 1) or (m0.get('kind') == 'lose' and as_int(m0['conn'].clean) == 1)
+            eng.check(by_pubcomp or by_discard, 'exchange-ended-early', 'a QoS 2 exchange ended in step %d (%s): neither its PUBCOMP nor a session discard' % (
+                s0, w.steps[s0][0]), sig='exchange-ended-early:' + str(m0.get('kind')))
     for (s2, c2, f) in flow.rx_log:
         if f['kind'] == 'PUBCOMP' and any(s0 <= s2 and eng.valid(f['msgId'] == x) for (x, i0, s0) in seen_rel):
             eng.count('exchange-completed')
@@ -85,7 +94,7 @@ def h_qos2(eng, params):
         flow.publish(qos=1)
     npub = 0
     for i in range(params['k']):
-        kinds = [k for k in KINDS if not (k.startswith('publish') and npub >= 2) and not (k == 'reconnect' and not params['persistent'])]
+        kinds = [k for k in KINDS if not (k.startswith('publish') and npub >= 2) and not (k.startswith('reconnect') and not params['persistent'])]
         forced = params.get('first') if i == 0 else params.get('second') if i == 1 else None
         if forced is not None and forced not in kinds:
             return None
@@ -96,6 +105,20 @@ def h_qos2(eng, params):
             npub += 1
         elif kind == 'advance':
             flow.advance(hi=100)
+        elif kind == 'reconnect-clean':
+            # the session is discarded by a clean connection, then a persistent one follows
+            flow.lose()
+            flow.open(clean=True, sp=0)
+            flow.lose()
+            flow.open(clean=False, sp=0)
+            eng.count('session-discarded')
+        elif kind == 'reconnect-lost':
+            # the persistent reconnection attempt dies before its CONNACK; the next one succeeds
+            flow.lose()
+            flow.open(clean=False, connack=False)
+            flow.lose(clean_close=False)
+            flow.open(clean=False, sp=1)
+            eng.count('reconnect-lost-before-connack')
         elif kind == 'reconnect':
             stage_rel = any(p['type'] == 'PUBREL' for (st, c, p) in flow.all_packets())
             flow.lose()
@@ -126,7 +149,7 @@ def shards(tier):
             for n in (1, 2):
                 for first in KINDS:
                     for second in KINDS:
-                        if 'reconnect' in (first, second) and not persistent:
+                        if (first.startswith('reconnect') or second.startswith('reconnect')) and not persistent:
                             continue
                         out.append(('qos2', {'profile': profile, 'persistent': persistent, 'n': n, 'k': 6 if T else (4 if n == 1 else 3), 'first': first, 'second': second,
                                              'with_qos1': n == 2}))
@@ -139,7 +162,7 @@ def shards(tier):
 
 META = {
     'rule': 'connected publishing client (clean or persistent), window symbolic, 1..2 QoS 2 publishes (+ one QoS 1), k free steps from {PUBREC, PUBCOMP (identifier '
-            'symbolic), advance(dt symbolic), publish QoS 2, publish QoS 1, loss + rebuilt protocol + persistent connect + CONNACK}, then 200 s; the order of '
+            'symbolic), advance(dt symbolic), publish QoS 2, publish QoS 1, loss + rebuilt protocol + persistent connect + CONNACK, the same through an intermediate clean session, the same with a first attempt lost before CONNACK}, then 200 s; the order of '
             'PUBLISH/PUBREL per identifier is read from the reference-parsed wire log of all connections',
     'bounds': {'quick': 'the first publish optionally issued before CONNACK (persistent session), also on reconnect; k=4 around one QoS 2 exchange, k=3 around two QoS 2 and one QoS 1 exchange; at most 2 further publishes', 'thorough': 'k=6'},
     'stubs': ['fake transport', 'twisted task.Clock', 'jitter: fixed sequence'],
